@@ -277,12 +277,12 @@ func genC20(g *mon.G) {
 
 func init() {
 	Register(&mon.Check{
-		ID:    "C20",
-		Level: "exploration",
-		Rule: "EXHAUSTIVE: all op strings of length ≤ 4 (quick) / ≤ 6 (thorough) over {OnPut(once), OnPut(always), Has(k1), Has(k2), Put(k1), Put(k2), Put(identity), Close} x 5 targets (path CARv1, path CARv2, path CARv2 with paddings/codec/identity options, stream, stream with options), plus random strings of length 5-30; after EVERY step: no write on the stream / no file before the first Put, then output bytes equal to a directly constructed storage.NewWritable fed the same puts, callback log equal to the model's (registration order, once-callbacks exactly once), closed-error after Close. A case = all strings sharing a first op; counters.histories counts individual strings",
+		ID:          "C20",
+		Level:       "exploration",
+		Rule:        "EXHAUSTIVE: all op strings of length ≤ 4 (quick) / ≤ 6 (thorough) over {OnPut(once), OnPut(always), Has(k1), Has(k2), Put(k1), Put(k2), Put(identity), Close} x 5 targets (path CARv1, path CARv2, path CARv2 with paddings/codec/identity options, stream, stream with options), plus random strings of length 5-30; after EVERY step: no write on the stream / no file before the first Put, then output bytes equal to a directly constructed storage.NewWritable fed the same puts, callback log equal to the model's (registration order, once-callbacks exactly once), closed-error after Close. A case = all strings sharing a first op; counters.histories counts individual strings",
 		Assumptions: []string{"the direct writer itself is judged by C01/C05; here only equality with it", "callbacks are registered from the same goroutine (OnPut is registration, not a concurrent operation)"},
-		Gen:   genC20,
-		Run:   runC20,
-		MinCover: map[string]int{"histories": 10000, "lazy-steps-observed": 1000, "byte-comparisons": 5000, "first-put": 1000, "close-before-put": 100, "close-after-put": 500, "histories-with-callbacks": 1000},
+		Gen:         genC20,
+		Run:         runC20,
+		MinCover:    map[string]int{"histories": 10000, "lazy-steps-observed": 1000, "byte-comparisons": 5000, "first-put": 1000, "close-before-put": 100, "close-after-put": 500, "histories-with-callbacks": 1000},
 	})
 }
